@@ -82,12 +82,12 @@ CLAIMED["C14"] = ("Proof (deductive, arbitrary input octets) for the decoding pr
   "DESIGN.md §4 C14")
 
 CLAIMED["C03"] = ("Proof (deductive, any prefix, all values) of the general contracts of the APER encoding primitives putBitString, putBitsValue, appendAlignBits, appendConstraintValue, appendLength, appendBool, appendEnumerated, appendInteger, appendChoiceIndex, appendOctetString, appendBitString: "
-  "what they refuse (value not fitting its width, range above 64K, INTEGER/ENUMERATED outside a non-extensible constraint: refused instead of put on the wire), the cursor invariant, that nothing before the last octet is read or changed, and the number of bits/octets each encoding occupies per X.691 10.5.7/10.9. "
-  "BOUNDED stand-ins (native runs of the real functions, labelled bounded, not proofs) compare the bits written with a reference encoder written from X.691 (/verif/spec/per/ref.go): the reflection-driven traversal itself on synthetic ASN.1 types, one per construct (extensible SEQUENCE with OPTIONAL components, SEQUENCE OF under seven size constraints with up to 300 elements, CHOICE, information object fields with open types, a PrintableString behind a wrapper type), in both directions; bit fields (all widths x alignments), constrained whole numbers, length determinants 0..16383, INTEGER under 17 constraint tuples, OCTET STRING and BIT STRING under the NGAP constraint shapes.",
+  "what they refuse (value not fitting its width, range above 64K, INTEGER/ENUMERATED outside a non-extensible constraint: refused instead of put on the wire), the cursor invariant, that nothing before the last octet is read or changed, and the number of bits/octets each encoding occupies per X.691 10.5.7/10.9 — including, for INTEGER, the unconstrained / out-of-root (10.8, minimum octets of the 2's complement), semi-constrained (10.7) and above-64K (10.5.7.4, for lower bound 0, which a structural obligation checks on the tags of ngapType) forms, and for OCTET STRING / BIT STRING the unconstrained, variable-size (range up to 255) and out-of-root forms. Found and repaired under these clauses: a range of 64K+1..128K (RepetitionPeriod) got a length field one bit short. "
+  "BOUNDED stand-ins (native runs of the real functions, labelled bounded, not proofs) compare the bits written with a reference encoder written from X.691 (/verif/spec/per/ref.go): the reflection-driven traversal itself on synthetic ASN.1 types, one per construct (extensible SEQUENCE with OPTIONAL components, SEQUENCE OF under seven size constraints with up to 300 elements, CHOICE, information object fields with open types, a PrintableString behind a wrapper type), in both directions; bit fields (all widths x alignments), constrained whole numbers, length determinants 0..16383, INTEGER under 23 constraint tuples, OCTET STRING and BIT STRING under the NGAP constraint shapes.",
   "NOT covered: the reflection-driven traversal (makeField, appendOpenType, Marshal*, ngap.Encoder) and the agreement of the ngapType struct tags with the ASN.1 of TS 38.413 are outside the executor's subset and have no offline oracle; fragmented lengths (>= 16384) are not checked. "
   "The value written by each primitive is established by the bounded stand-ins only (the symbolic proof of the bit-level postcondition timed out; see DESIGN.md). Trusted: govc, go/ssa, SMT solvers, the reference encoder.",
   "DESIGN.md §4 C03")
-CLAIMED["C04"] = ("Proof (deductive, arbitrary input) of the functional contracts of the decoding primitives: GetBitString/GetBitsValue/getBitString/getBitsValue return exactly the X.691 bit field at the cursor and advance by its width; parseAlignBits, parseConstraintValue (field width / aligned octets per 10.5.7), parseLength (10.9), parseBool — these mirror the encoder's general contracts (same widths, same alignment). "
+CLAIMED["C04"] = ("Proof (deductive, arbitrary input) of the functional contracts of the decoding primitives: GetBitString/GetBitsValue/getBitString/getBitsValue return exactly the X.691 bit field at the cursor and advance by its width; parseAlignBits, parseConstraintValue (field width / aligned octets per 10.5.7), parseLength (10.9), parseBool — these mirror the encoder's general contracts (same widths, same alignment); parseInteger (value and advance for ranges up to 255 values and above 64K, advance of the length-octet forms); parseOctetString for fixed sizes (the octets at the cursor, aligned above two octets). "
   "BOUNDED stand-ins (labelled bounded): primitive round trips parse(append(v)) = v over the enumerated families of C03, and whole-PDU round trips decode(encode(m)) -> same octets and equal structure for the emulator's 8 message constructors over boundary identifiers, NAS lengths and gNB id lengths.",
   "NOT covered by proof: the traversal (parseField, parseSequenceOf, parseOpenType, Unmarshal*), hence whole-PDU round trips are bounded only; canonical encodings from an independent whole-PDU encoder are not available offline. Trusted: govc, go/ssa, SMT solvers.",
   "DESIGN.md §4 C04")
